@@ -193,6 +193,9 @@ fn menu(t: usize, n: usize, rich: bool) -> Vec<(Vec<usize>, Option<Expr>)> {
         m.push((vec![x], Some(call("f", vec![x]))));
         m.push((vec![x], Some(Expr::bin('|', call("f", vec![x]), call("h", vec![])))));
         m.push((vec![x], Some(Expr::bin('^', call("f", vec![x]), Expr::bin('&', call("f", vec![x]), call("h", vec![]))))));
+        // literal (negated) arguments
+        m.push((vec![x], Some(Expr::CallLit("f".into(), vec![(x, true)]))));
+        m.push((vec![x], Some(Expr::bin('&', call("f", vec![x]), Expr::CallLit("f".into(), vec![(x, true)])))));
         if rich {
             m.push((vec![x], Some(v(x))));
             m.push((vec![x], Some(Expr::bin('&', call("g", vec![x]), Expr::not(call("f", vec![x]))))));
@@ -207,6 +210,7 @@ fn menu(t: usize, n: usize, rich: bool) -> Vec<(Vec<usize>, Option<Expr>)> {
             // the same symbol twice in one update function, with different / swapped / equal arguments
             m.push((vec![x, y], Some(Expr::bin('|', call("f", vec![x]), call("f", vec![y])))));
             m.push((vec![x, y], Some(Expr::bin('&', call("k", vec![x, y]), Expr::not(call("k", vec![y, x]))))));
+            m.push((vec![x, y], Some(Expr::bin('|', Expr::CallLit("k".into(), vec![(x, true), (y, false)]), call("k", vec![x, y])))));
             if rich {
                 m.push((vec![x, y], Some(Expr::bin('^', v(x), v(y)))));
                 m.push((vec![x, y], Some(Expr::bin('|', v(x), Expr::not(v(y))))));
@@ -318,7 +322,7 @@ pub fn run(tier: &str) -> Result<Report, String> {
     rep.set("networks_accepted_by_the_library", json!(accepted));
     rep.sample(json!({"aeon": specs[specs.len() / 2].to_aeon()}));
     rep.sample(json!({"aeon": "a -?? b\nb -?? b\n$b: f(a) | h\n", "oracle": "as the fresh inputs range over all values, b's output function must range over exactly the 2 * 4 instantiations of f(a) | h"}));
-    rep.rule = "every network with 1..3 variables a,b,c whose variables each take one item of a menu (no regulator/no function; constants; zero-arity h; implicit function over 1, 2 (3) regulators; !x, x, x^y, x|!y; f(x); f(x)|h; g(x)&!f(x); k(x,y); k(y,x); f(x)&g(y); f(x)|f(y); k(x,y)&!k(y,x); f(x)^(f(x)&h); f(y)=>(x&h); ...; unconstrained and, for n<=2, constrained regulations; symbols shared between variables) that is well formed and accepted by the library, plus a name-clash sub-family (a variable named like a generated input). The convert-aeon-to-bnet binary built from the working tree is run on the aeon text; its output is re-loaded as bnet; for every target the set of truth tables over the original variables under all valuations of the fresh inputs must equal the set of truth tables of all instantiations of the input function (constraints dropped); targets = variables with a regulator or function; fresh inputs are no targets. distinct_nontrivial = networks accepted by the library".into();
+    rep.rule = "every network with 1..3 variables a,b,c whose variables each take one item of a menu (no regulator/no function; constants; zero-arity h; implicit function over 1, 2 (3) regulators; !x, x, x^y, x|!y; f(x); f(x)|h; g(x)&!f(x); k(x,y); k(y,x); f(x)&g(y); f(x)|f(y); k(x,y)&!k(y,x); f(!x); f(x)&f(!x); k(!x,y)|k(x,y); f(x)^(f(x)&h); f(y)=>(x&h); ...; unconstrained and, for n<=2, constrained regulations; symbols shared between variables) that is well formed and accepted by the library, plus a name-clash sub-family (a variable named like a generated input). The convert-aeon-to-bnet binary built from the working tree is run on the aeon text; its output is re-loaded as bnet; for every target the set of truth tables over the original variables under all valuations of the fresh inputs must equal the set of truth tables of all instantiations of the input function (constraints dropped); targets = variables with a regulator or function; fresh inputs are no targets. distinct_nontrivial = networks accepted by the library".into();
     rep.assumptions.push("biodivine-lib-param-bn's bnet parser is trusted for reading the converter's output; truth tables are evaluated by the harness's own evaluator".into());
     Ok(rep)
 }
